@@ -2,6 +2,9 @@
    the implementation's own bytecode and inputs, and reports every disagreement.
    Usage: driver exec < cases   (prints one line per disagreement and a final SUMMARY line) *)
 open Model
+module String = Stdlib.String
+module List = Stdlib.List
+type string = Stdlib.String.t
 open Conv
 
 let split (s : string) : string list = List.filter (fun x -> x <> "") (String.split_on_char ' ' s)
@@ -342,4 +345,5 @@ let () =
   | _ :: "spec" :: _ -> Specdrv.run ()
   | _ :: "cps" :: _ -> Cpsdrv.run_cps ()
   | _ :: "fold" :: _ -> Cpsdrv.run_fold ()
+  | _ :: "props" :: _ -> Cpsdrv.run_props ()
   | _ -> main_exec ()
